@@ -54,6 +54,8 @@ LitPool == [
   int  |-> << <<"7", Int("-", "7")>>, <<"1_000", Int("-", "1000")>>, <<"16#FF", Int("-", "255")>>,
               <<"0", Int("-", "0")>>, <<"2#1010", Int("-", "10")>>, <<"8#17", Int("-", "15")>> >>,
   uint |-> << <<"3", V("3")>>, <<"10", V("10")>>, <<"42", V("42")>> >>,
+  pint |-> << <<"5", <<"SInt", V("5")>> >>, <<"+9", <<"SInt", V("9")>> >>, <<"0", <<"SInt", V("0")>> >> >>,
+  nint |-> << <<"-2", <<"SInt", V("-2")>> >>, <<"-10", <<"SInt", V("-10")>> >> >>,
   sint |-> << <<"5", <<"SInt", V("5")>> >>, <<"-2", <<"SInt", V("-2")>> >>, <<"+9", <<"SInt", V("9")>> >> >>,
   tint |-> << <<"INT#5", Int("INT", "5")>>, <<"UDINT#16#10", Int("UDINT", "16")>>, <<"SINT#-3", Int("SINT", "-3")>> >>,
   real |-> << <<"1.5", Real("-", "1.5")>>, <<"2.5E3", Real("-", "2500.0")>>, <<"REAL#0.25", Real("REAL", "0.25")>>,
@@ -160,7 +162,8 @@ StmtProds == [
   case_els |-> { Eps, Pr("case:more", 1, <<N("case_el"), S, N("case_els")>>) },
   case_el  |-> { Pr("", 0, <<Nil, N("case_sel"), S, N("case_sels"), T(":"), N("stmts1"), R("CaseEl", 2)>>) },
   case_sels |-> { Eps, Pr("case:sel2", 1, <<T(","), N("case_sel"), S, N("case_sels")>>) },
-  case_sel |-> { Pr("case:int", 0, <<L("sint")>>),
+  case_sel |-> { Pr("case:int", 0, <<L("pint")>>),
+                 Pr("case:negint", 1, <<L("nint")>>),
                  Pr("case:range", 1, <<L("sint"), Tg(".."), Lg("sint"), R("Range", 2)>>),
                  Pr("case:enum", 1, <<None, ID, R("EnumVal", 2)>>),
                  Pr("case:tenum", 1, <<ID, Tg("#"), IDg, R("EnumVal", 2)>>) }
